@@ -141,4 +141,89 @@ pub proof fn lemma_keep_refs(all: Seq<naga::StructMember>, refs: Seq<&naga::Stru
     if all.len() > 0 { lemma_keep_refs(all.drop_last(), refs.drop_last(), bs.drop_last()); }
 }
 
+
+// ---------------- C08: which structs are emitted ----------------
+pub open spec fn gvars(m: &naga::Module) -> Seq<naga::GlobalVariable> { arena_seq(&m.global_variables) }
+pub open spec fn result_is(e: &naga::EntryPoint, i: int) -> bool { match e.function.result { Some(r) => handle_index(r.ty) == i, None => false } }
+pub open spec fn arg_is(e: &naga::EntryPoint, i: int) -> bool {
+    exists|a: int| 0 <= a < e.function.arguments@.len() && handle_index(#[trigger] e.function.arguments@[a].ty) == i
+}
+// the struct is some entry point's return type (stage outputs, inter-stage values)
+pub open spec fn is_entry_result(m: &naga::Module, i: int) -> bool { exists|k: int| 0 <= k < m.entry_points@.len() && result_is(&#[trigger] m.entry_points@[k], i) }
+// the struct is taken as a parameter by some entry point
+pub open spec fn is_entry_arg(m: &naga::Module, i: int) -> bool { exists|k: int| 0 <= k < m.entry_points@.len() && arg_is(&#[trigger] m.entry_points@[k], i) }
+// reachable from the type of a module-scope variable (through members, arrays, runtime arrays)
+pub open spec fn host_visible(m: &naga::Module, i: int) -> bool { exists|g: int| 0 <= g < gvars(m).len() && #[trigger] reach(m, handle_index(gvars(m)[g].ty), i) }
+pub open spec fn host_upto(m: &naga::Module, k: int, i: int) -> bool { exists|g: int| 0 <= g < k && #[trigger] reach(m, handle_index(gvars(m)[g].ty), i) }
+pub open spec fn emitted(m: &naga::Module, i: int) -> bool { (!is_entry_result(m, i) && is_entry_arg(m, i)) || host_visible(m, i) }
+pub open spec fn struct_item(m: &naga::Module, i: int, o: WriteOptions) -> Option<Seq<Tok>> {
+    match tys(m)[i].inner {
+        naga::TypeInner::Struct { members, .. } => Some(rust_struct_toks(m, tys(m)[i].name->0@, members@, wgsl_size(m, i), o, host_visible(m, i))),
+        _ => None,
+    }
+}
+pub open spec fn struct_items(m: &naga::Module, o: WriteOptions) -> Seq<Option<Seq<Tok>>> {
+    Seq::new(tys(m).len(), |i: int| if emitted(m, i) { struct_item(m, i, o) } else { None })
+}
+// exactly the host-visible structs, in arena order, once each (a UniqueArena holds each struct once)
+pub open spec fn structs_toks(m: &naga::Module, o: WriteOptions) -> Seq<Tok> { flat(somes(struct_items(m, o)), Seq::empty(), Seq::empty(), Seq::empty()) }
+pub open spec fn structs_pre(m: &naga::Module, o: WriteOptions) -> bool {
+    &&& layout_ok(m) && types_wf(m)
+    &&& forall|g: int| 0 <= g < gvars(m).len() ==> 0 <= handle_index(#[trigger] gvars(m)[g].ty) < tys(m).len()
+    &&& forall|i: int| 0 <= i < tys(m).len() && #[trigger] emitted(m, i) ==> (match tys(m)[i].inner {
+            naga::TypeInner::Struct { members, .. } => tys(m)[i].name is Some && members_ok(m, user_members(members@))
+                && combo_ok(o, host_visible(m, i), has_rts(m, user_members(members@))),
+            _ => true })
+}
+// somes over a filtered sequence == somes over the full sequence with the rejected positions blanked
+pub proof fn lemma_somes_keep<A, B>(xs: Seq<A>, bs: Seq<bool>, ys: Seq<Option<B>>, zs: Seq<Option<B>>, f: spec_fn(A) -> Option<B>)
+    requires bs.len() == xs.len(), ys.len() == keep(xs, bs).len(), zs.len() == xs.len(),
+        forall|j: int| 0 <= j < ys.len() ==> #[trigger] ys[j] == f(keep(xs, bs)[j]),
+        forall|i: int| 0 <= i < xs.len() ==> #[trigger] zs[i] == (if bs[i] { f(xs[i]) } else { None }),
+    ensures somes(ys) == somes(zs),
+    decreases xs.len(),
+{
+    if xs.len() > 0 {
+        let kx = keep(xs.drop_last(), bs.drop_last());
+        if bs.last() {
+            assert(keep(xs, bs) == kx.push(xs.last()));
+            assert(ys.drop_last().len() == kx.len());
+            assert forall|j: int| 0 <= j < ys.drop_last().len() implies #[trigger] ys.drop_last()[j] == f(kx[j]) by { assert(ys[j] == f(keep(xs, bs)[j])); }
+            lemma_somes_keep(xs.drop_last(), bs.drop_last(), ys.drop_last(), zs.drop_last(), f);
+            assert(ys.last() == f(xs.last()));
+            assert(zs.last() == f(xs.last()));
+        } else {
+            assert(keep(xs, bs) == kx);
+            lemma_somes_keep(xs.drop_last(), bs.drop_last(), ys, zs.drop_last(), f);
+            assert(zs.last() is None);
+        }
+    } else {
+        assert(ys.len() == 0);
+    }
+}
+
+
+// ---------------- C09: the struct section depends on the options only through the five struct switches ----------------
+pub open spec fn same_struct_switches(a: WriteOptions, b: WriteOptions) -> bool {
+    a.derive_bytemuck_vertex == b.derive_bytemuck_vertex && a.derive_bytemuck_host_shareable == b.derive_bytemuck_host_shareable
+        && a.derive_encase_host_shareable == b.derive_encase_host_shareable && a.derive_serde == b.derive_serde
+        && a.matrix_vector_types == b.matrix_vector_types
+}
+pub proof fn lemma_structs_noninterference(m: &naga::Module, a: WriteOptions, b: WriteOptions)
+    requires same_struct_switches(a, b),
+    ensures structs_toks(m, a) == structs_toks(m, b), structs_pre(m, a) == structs_pre(m, b),
+{
+    assert forall|i: int| 0 <= i < tys(m).len() implies #[trigger] struct_items(m, a)[i] == struct_items(m, b)[i] by {
+        match tys(m)[i].inner {
+            naga::TypeInner::Struct { members, .. } => {
+                let ms = user_members(members@);
+                let host = host_visible(m, i);
+                assert(derive_list(a, host, has_rts(m, ms)) == derive_list(b, host, has_rts(m, ms)));
+            },
+            _ => {},
+        }
+    }
+    assert(struct_items(m, a) =~= struct_items(m, b));
+}
+
 } // verus!
